@@ -190,13 +190,13 @@ fn check_tape(tape: &[u8], gates: &Gates, stats: &mut Stats, counting: bool) -> 
             other => return Err(Failure::new("encodings", "abnormal-exit", format!("`check` of the {} file exits {:?}", ENC_NAMES[which], other), inputs)),
         }
         if let Some((rw, r)) = &reference {
-            if r.status != o.status {
+            if (r.status == Some(0)) != (o.status == Some(0)) {
                 return Err(Failure::new("encodings", "verdict-differs", format!("exit status {:?} as {} but {:?} as {}", r.status, ENC_NAMES[*rw], o.status, ENC_NAMES[which]), inputs));
             }
             if r.diags != o.diags {
                 return Err(Failure::new("encodings", "positions-differ", format!("(code, line, column) {:?} as {} but {:?} as {}", r.diags, ENC_NAMES[*rw], o.diags, ENC_NAMES[which]), inputs));
             }
-            if r.tokens != o.tokens || r.tok_status != o.tok_status {
+            if r.tokens != o.tokens || (r.tok_status == Some(0)) != (o.tok_status == Some(0)) {
                 return Err(Failure::new("encodings", "tokens-differ", format!("`tokenize` listing differs between {} and {}", ENC_NAMES[*rw], ENC_NAMES[which]), inputs));
             }
         } else {
@@ -230,7 +230,7 @@ fn check_tape(tape: &[u8], gates: &Gates, stats: &mut Stats, counting: bool) -> 
                     // arbitrary file of the set: compared by presence only
                     let positioned = |v: &Vec<(String, usize, usize)>| -> Vec<(String, usize, usize)> { v.iter().filter(|d| d.0 != "P9999" && d.0 != "P0030").cloned().collect() };
                     let (diags, rdiags) = (positioned(&diags), positioned(&r.diags));
-                    if c.status != r.status {
+                    if (c.status == Some(0)) != (r.status == Some(0)) {
                         return Err(Failure::new("encodings-set", "verdict-differs", format!("alone the file gives exit {:?}; next to a valid {} companion (file stored as {}) `check` exits {:?}", r.status, ENC_NAMES[comp_enc], ENC_NAMES[main_enc], c.status), inputs));
                     }
                     if diags != rdiags {
@@ -351,7 +351,7 @@ pub fn run(ctx: &Ctx) -> i32 {
                 other => return Err(Failure::new("degenerate", "abnormal-exit", format!("{:?} as {}: check / tokenize exit {:?}", text, ENC_NAMES[which], other), inputs)),
             }
             if let Some((rw, r)) = &reference {
-                if r.status != o.status || r.tok_status != o.tok_status || r.diags != o.diags {
+                if (r.status == Some(0)) != (o.status == Some(0)) || (r.tok_status == Some(0)) != (o.tok_status == Some(0)) || r.diags != o.diags {
                     return Err(Failure::new(
                         "degenerate",
                         "verdict-differs",
@@ -400,7 +400,7 @@ pub fn witness(w: &Value) -> Result<(), String> {
         if let Some(bytes) = encode(text, which) {
             let o = observe(&bytes).ok_or("timeout")?;
             if let Some(r) = &reference {
-                if r.status != o.status || r.diags != o.diags || r.tokens != o.tokens {
+                if (r.status == Some(0)) != (o.status == Some(0)) || r.diags != o.diags || r.tokens != o.tokens {
                     return Err(format!("{} differs from utf-8: exit {:?}/{:?}, diags {:?}/{:?}", ENC_NAMES[which], r.status, o.status, r.diags, o.diags));
                 }
             } else {
